@@ -386,7 +386,8 @@ Proof.
     intros o w1. destruct (schedule_after_bal w1 t o) as [seg [E B']]. eapply okD_done; eassumption.
   - cbn [bu_make_consistent]. destruct (memN t (consistent w)).
     + destruct (get_task_output w t); apply okD_quiet; reflexivity.
-    + destruct (get_task_output w t); [|apply execute_with_okD; exact Hreq].
+    + destruct ((match get_task_output w t with None => true | Some _ => false end) && negb (memN t (queue w)))%bool;
+        [apply execute_with_okD; exact Hreq|].
       apply okD_bind; [apply IH3|]. intros r w1. destruct r; [apply okD_quiet; reflexivity|].
       destruct (get_task_output w1 t); apply okD_quiet; reflexivity.
   - cbn [bu_require_scheduled_now]. destruct (queue w); [apply okD_quiet; reflexivity|].
